@@ -28,6 +28,152 @@ CONC_CALLS = {
 }
 
 
+MK2_SCENARIOS = {   # Mkdir2.tla scenario -> (tree, calls), mirrored in spec/MC_Mkdir2.tla
+    "S1": ("mk", [dict(op="mkdir_all", path="a/b/x/y/z", mode=0o755), dict(op="mkdir_all", path="a/b/x/y/z", mode=0o755)]),
+    "S2": ("mk", [dict(op="mkdir_all", path="la/x/y", mode=0o755), dict(op="mkdir_all", path="a/b/x/w", mode=0o755)]),
+    "S3": ("mk", [dict(op="mkdir_all", path="n1/n2/n3", mode=0o711), dict(op="mkdir_all", path="n1/n2", mode=0o711)]),
+    "S4": ("mk", [dict(op="mkdir_all", path="a/../a/b/q/r", mode=0o700), dict(op="mkdir_all", path="a/b/q", mode=0o755)]),
+}
+REAL_STEPS = {"try": 1, "reopen": 2, "mk": 1, "open": 1}   # relevant syscalls of the implementation per model action
+
+
+def tlc_mkdir2(scn, tolerate=True):
+    """model-check Mkdir2.tla for one scenario, dump the state graph, and derive one schedule per
+    transition of the graph (shortest path to the transition's source, then the transition)"""
+    import re
+    cfg = os.path.join(workdir(), "mk2-%s-%s.cfg" % (scn, tolerate))
+    with open(cfg, "w") as f:
+        f.write("SPECIFICATION Spec\nCONSTANTS\n  Procs = {\"p1\", \"p2\"}\n  Scenario <- %s\n  MaxIno = 20\n  KMaxLinks = 40\n  TolerateEEXIST = %s\n"
+                "INVARIANTS TypeOK AllSucceed HandleIsResolution OnlyNewDirs\nCHECK_DEADLOCK FALSE\n" % (scn, "TRUE" if tolerate else "FALSE"))
+    dump = os.path.join(workdir(), "mk2-%s" % scn)
+    r = run_tlc("MC_Mkdir2.tla", cfg, workers=1, timeout=900, extra=["-dump", "dot,actionlabels", dump])
+    scheds = []
+    if tolerate and r["complete"] and os.path.exists(dump + ".dot"):
+        nodes, edges = {}, []
+        for line in open(dump + ".dot"):
+            m = re.match(r'^(-?\d+) \[label="(.*)"', line)
+            if m:
+                lab = m.group(2)
+                who = re.search(r'who = \\"(\w*)\\"', lab)
+                pcs = dict(re.findall(r'(p\d) \|-> \\"(\w+)\\"', re.search(r'pc = \[(.*?)\]', lab).group(1)))
+                nodes[m.group(1)] = (who.group(1) if who else "", pcs)
+                continue
+            m = re.match(r'^(-?\d+) -> (-?\d+)', line)
+            if m and m.group(1) != m.group(2):
+                edges.append((m.group(1), m.group(2)))
+        init = next(n for n, (w, pcs) in nodes.items() if w == "")
+        adj = collections.defaultdict(list)
+        for a, b in edges:
+            adj[a].append(b)
+        # BFS tree from init: path of (mover, action) to every node
+        prev = {init: None}
+        q = [init]
+        while q:
+            a = q.pop(0)
+            for b in adj[a]:
+                if b not in prev:
+                    prev[b] = a
+                    q.append(b)
+
+        def steps_to(n):
+            out = []
+            while prev[n] is not None:
+                a = prev[n]
+                mover = nodes[n][0]
+                out.append((mover, nodes[a][1][mover]))
+                n = a
+            return out[::-1]
+        seen = set()
+        for a, b in edges:
+            if a not in prev:
+                continue
+            mover = nodes[b][0]
+            st = steps_to(a) + [(mover, nodes[a][1][mover])]
+            order = []
+            for mv, act in st:
+                order += [int(mv[1:]) - 1] * REAL_STEPS.get(act, 1)
+            t = tuple(order)
+            if t not in seen:
+                seen.add(t)
+                scheds.append(order)
+    return r, scheds
+
+
+RM2_SCENARIOS = {   # Remove2.tla scenario -> remove_all path on CONC_TREES["rm2"] (mirrors spec/MC_Remove2.tla)
+    "RA": "a", "RB": "a/b",
+}
+REAL_STEPS_RM = {"unlink": 1, "rmdir": 1, "opendir": 1, "scan": 3, "iter": 0}
+
+
+def tlc_remove2(scn, ignore=True, nofollow=True, attack=0, dump=False):
+    import re
+    cfg = os.path.join(workdir(), "rm2-%s-%s-%s-%d.cfg" % (scn, ignore, nofollow, attack))
+    with open(cfg, "w") as f:
+        f.write("SPECIFICATION Spec\nCONSTANTS\n  Procs = {\"p1\", \"p2\"}\n  Scenario <- %s\n  MaxIno = 14\n  IgnoreENOENT = %s\n  NoFollowOnOpen = %s\n  MaxAttack = %d\n"
+                "INVARIANTS TypeOK AllSucceed Gone OnlySubtreeGone WholeSubtreeGone OutsideUntouched\nCHECK_DEADLOCK FALSE\n" % (scn, "TRUE" if ignore else "FALSE", "TRUE" if nofollow else "FALSE", attack))
+    dfile = os.path.join(workdir(), "rm2-%s" % scn)
+    r = run_tlc("MC_Remove2.tla", cfg, workers=1 if dump else 8, timeout=900, extra=["-dump", "dot,actionlabels", dfile] if dump else None)
+    scheds = []
+    if dump and r["complete"] and os.path.exists(dfile + ".dot"):
+        nodes, edges = {}, []
+        for line in open(dfile + ".dot"):
+            m = re.match(r'^(-?\d+) \[label="(.*)"', line)
+            if m:
+                lab = m.group(2)
+                who = re.search(r'who = \\"(\w*)\\"', lab)
+                # pc of the top frame of every process
+                tops = {}
+                for pm in re.finditer(r'(p\d) \|->\s*<<(.*?)>>(?=,\s*p\d \|->|\s*\])', re.search(r'stack = \[(.*?)\]\\n/\\\\ ', lab + "\\n/\\\\ ", re.S).group(1), re.S):
+                    pcs = re.findall(r'pc \|-> \\"(\w+)\\"', pm.group(2))
+                    tops[pm.group(1)] = pcs[-1] if pcs else "done"
+                nodes[m.group(1)] = (who.group(1) if who else "", tops)
+                continue
+            m = re.match(r'^(-?\d+) -> (-?\d+)', line)
+            if m and m.group(1) != m.group(2):
+                edges.append((m.group(1), m.group(2)))
+        init = next((n for n, (w, t) in nodes.items() if w == ""), None)
+        adj = collections.defaultdict(list)
+        for a, b in edges:
+            adj[a].append(b)
+        prev = {init: None}
+        q = [init]
+        while q:
+            a = q.pop(0)
+            for b in adj[a]:
+                if b not in prev:
+                    prev[b] = a
+                    q.append(b)
+
+        def steps_to(n):
+            out = []
+            while prev[n] is not None:
+                a = prev[n]
+                mover = nodes[n][0]
+                out.append((mover, nodes[a][1].get(mover, "unlink")))
+                n = a
+            return out[::-1]
+        seen = set()
+        for a, b in edges:
+            if a not in prev:
+                continue
+            mover = nodes[b][0]
+            st = steps_to(a) + [(mover, nodes[a][1].get(mover, "unlink"))]
+            order, started = [], set()
+            for mv, act in st:
+                if not mv.startswith("p"):
+                    continue
+                pi = int(mv[1:]) - 1
+                if pi not in started:
+                    started.add(pi)
+                    order.append(pi)           # the in-root resolution of the parent directory
+                order += [pi] * REAL_STEPS_RM.get(act, 1)
+            t = tuple(order)
+            if t not in seen:
+                seen.add(t)
+                scheds.append(order)
+    return r, scheds
+
+
 def static_cases(prop, rnd, quick):
     gen = run_tlc("MC_RootOps.tla", "MC_C12_gen.cfg", workers=8, timeout=1800)
     design = run_tlc("MC_RootOps.tla", "MC_C12_design.cfg", workers=8, timeout=1800)
@@ -89,6 +235,44 @@ def conc_cases(prop, rnd, quick):
                 cases.append(dict(id="conc|%s|%s|%s|%d" % (tname, calls[0]["path"], bname, si), tree=CONC_TREES[tname], feat=feat, trace=True, raw=False, procs=2,
                                   calls=cs, order=order + [first] * 400, post=True, expectall=all(ok), mkmode=calls[0].get("mode", 0o755),
                                   meta=dict(kind="concurrent", tree=tname, calls=calls, backend=bname, order_prefix=order, alone_ok=ok)))
+    # schedules derived from the state graph of the two-process model (one per transition), for the
+    # backend the model describes (openat2-style partial lookup)
+    tlc_info = {}
+    if prop == "C12":
+        for scn, (tname, calls) in MK2_SCENARIOS.items():
+            r, scheds = tlc_mkdir2(scn)
+            rv, _ = tlc_mkdir2(scn, tolerate=False)
+            tlc_info[scn] = dict(states=r["distinct"], transitions=r["states"], complete=r["complete"], violated=r["violated"], schedules=len(scheds), variant_no_eexist_tolerance=rv["violated"])
+            if quick and len(scheds) > 150:
+                rnd.shuffle(scheds)
+                scheds = scheds[:150]
+            for si, order in enumerate(scheds):
+                cs = [dict(c, proc=pi) for pi, c in enumerate(calls)]
+                modes = {c.get("mode") for c in calls}
+                cases.append(dict(id="tlcsched|%s|%d" % (scn, si), tree=CONC_TREES[tname], feat={"openat2": True}, trace=True, raw=False, procs=2, calls=cs,
+                                  order=order + [0] * 400, post=True, expectall=True, mkmode=calls[0]["mode"] if len(modes) == 1 else -1,
+                                  meta=dict(kind="concurrent-tlc", tree=tname, calls=calls, backend="kernel", scenario=scn, order_prefix=order)))
+    if prop == "C13":
+        tree = [N(5, R, "a", "dir"), N(6, 5, "b", "dir"), N(7, 6, "c", "dir"), N(8, 7, "f1", "file"), N(9, 6, "f2", "file"), N(10, 5, "l_out", "lnk", "../../out"),
+                N(12, R, "e", "dir"), N(13, 12, "keep", "file"), N(11, R, "swap", "lnk", "../out")]
+        for scn, path in RM2_SCENARIOS.items():
+            r, scheds = tlc_remove2(scn, dump=True)
+            ra, _ = tlc_remove2(scn, attack=1)
+            v1, _ = tlc_remove2(scn, ignore=False)
+            v2, _ = tlc_remove2(scn, nofollow=False, attack=1)
+            tlc_info[scn] = dict(states=r["distinct"], transitions=r["states"], complete=r["complete"], violated=r["violated"], schedules=len(scheds),
+                                 with_one_attacker_exchange=dict(states=ra["distinct"], violated=ra["violated"]),
+                                 variant_no_enoent_tolerance=v1["violated"], variant_following_open_under_attack=v2["violated"])
+            if quick and len(scheds) > 150:
+                rnd.shuffle(scheds)
+                scheds = scheds[:150]
+            calls = [dict(op="remove_all", path=path), dict(op="remove_all", path=path)]
+            for si, order in enumerate(scheds):
+                cs = [dict(c, proc=pi) for pi, c in enumerate(calls)]
+                cases.append(dict(id="tlcsched|%s|%d" % (scn, si), tree=tree, feat={"openat2": True}, trace=True, raw=False, procs=2, calls=cs,
+                                  order=order + [0] * 600, post=True, expectall=True,
+                                  meta=dict(kind="concurrent-tlc", tree="rm2", calls=calls, backend="kernel", scenario=scn, order_prefix=order)))
+    conc_cases.tlc_info = tlc_info
     return cases, space
 
 
@@ -159,7 +343,7 @@ def run(prop, tier_):
                samples=samples, evaluations=len(cases), distinct_nontrivial=len({json.dumps(c["meta"], sort_keys=True) for c in cases}),
                rule="static case = (path spelling generated by TLC, backend); concurrent case = (scenario of two calls, backend, schedule prefix with up to two preemptions at relevant-syscall granularity); all distinct by construction; non-trivial = all (every path has symlink/dot/missing components or a second process)",
                exhaustive=not quick, static_generated=total, static_executed=len(scases), schedule_space=space, schedules_executed=len(ccases),
-               design_invariant_violated=design["violated"], model_agrees=stats["model_agrees"], model_disagrees=stats["model_disagrees"],
+               two_process_model=getattr(conc_cases, "tlc_info", {}), design_invariant_violated=design["violated"], model_agrees=stats["model_agrees"], model_disagrees=stats["model_disagrees"],
                kernel_model_mismatches=stats["kmm"], kmm_samples=stats.get("kmm_samples", [])[:3], notes=v.notes[:8], build_s=round(build_s, 1))
     return rc, cov, time.time() - t0, v
 
